@@ -30,6 +30,8 @@ READY = {
     "OHVerif.Props.C12", "OHVerif.Props.C13", "OHVerif.Props.C14", "OHVerif.Props.C19",
     "OHVerif.Props.C04", "OHVerif.Props.C10", "OHVerif.Props.C17", "OHVerif.Props.C18",
     "OHVerif.Props.C16", "OHVerif.Props.C20", "OHVerif.Props.C03",
+    "OHVerif.Props.C12Type", "OHVerif.Props.C14Optic", "OHVerif.Props.C19Build",
+    "OHVerif.Props.C10Iso", "OHVerif.Props.C04Lax",
 }
 
 def _mods(*names):
@@ -42,24 +44,24 @@ PROPS = {
                 missing=[]),
     "C02": dict(modules=_mods("OHVerif.Props.C02"), groups=[("oh", 1500), ("law", 1500), ("lax.cat", 1500)], deps=[("ic", 300), ("ff", 300), ("hg", 300)]),
     "C03": dict(modules=_mods("OHVerif.Props.C03"), groups=[("law", 4000)], deps=[("oh", 800)]),
-    "C04": dict(modules=_mods("OHVerif.Props.C04"), groups=[("law", 2500), ("oh", 1500), ("lax.cat", 1000), ("lawlax", 1500)], deps=[]),
-    "C05": dict(modules=_mods("OHVerif.Props.C05"), groups=[("oh", 1500), ("hg", 1500), ("lax.cat", 800), ("functor", 300), ("dynfunctor", 400), ("optic", 300), ("ic", 1500), ("ff", 600)],
+    "C04": dict(modules=_mods("OHVerif.Props.C04", "OHVerif.Props.C04Lax"), groups=[("law", 2500), ("oh", 1500), ("lax.cat", 1000), ("lawlax", 1500)], deps=[]),
+    "C05": dict(modules=_mods("OHVerif.Props.C05", "OHVerif.Props.C12Type", "OHVerif.Props.C14Optic"), groups=[("oh", 1500), ("hg", 1500), ("lax.cat", 800), ("functor", 300), ("dynfunctor", 400), ("optic", 300), ("ic", 1500), ("ff", 600)],
                 deps=[("ff", 400), ("ic", 400)]),
     "C06": dict(modules=_mods("OHVerif.Props.C06"), groups=[("ff", 3000)], deps=[("prim", 500)]),
     "C07": dict(modules=_mods("OHVerif.Props.C07", "OHVerif.Lemmas.VecBackend"), groups=[("prim", 3000)], deps=[], release=True),
     "C08": dict(modules=_mods("OHVerif.Props.C08"), groups=[("ic", 3000)], deps=[("ff", 500), ("prim", 500)]),
     "C09": dict(modules=_mods("OHVerif.Props.C09"), groups=[("lax.quot", 2000), ("lax.edit", 1000)], deps=[("ff", 400)]),
-    "C10": dict(modules=_mods("OHVerif.Props.C10"), groups=[("lax.cat", 2500), ("lawlax", 1500)], deps=[("oh", 400)]),
+    "C10": dict(modules=_mods("OHVerif.Props.C10", "OHVerif.Props.C10Iso"), groups=[("lax.cat", 2500), ("lawlax", 1500)], deps=[("oh", 400)]),
     "C11": dict(modules=_mods("OHVerif.Props.C11"), groups=[("lax.edit", 3000), ("lax.cat", 1500)], deps=[],
                 missing=["the JSON clause is decided by correspondence only (serde_json's text printer/parser is outside the model): the model's documented JSON text is compared with serde's output and the Rust round trip is executed"]),
-    "C12": dict(modules=_mods("OHVerif.Props.C12"), groups=[("dynfunctor", 1500), ("functor", 800)], deps=[("oh", 400), ("ff", 300)]),
+    "C12": dict(modules=_mods("OHVerif.Props.C12", "OHVerif.Props.C12Type"), groups=[("dynfunctor", 1500), ("functor", 800)], deps=[("oh", 400), ("ff", 300)]),
     "C13": dict(modules=_mods("OHVerif.Props.C13"), groups=[("dynfunctor", 2500)], deps=[("lax.cat", 400)]),
-    "C14": dict(modules=_mods("OHVerif.Props.C14"), groups=[("optic", 1500)], deps=[("dynfunctor", 300), ("eval", 300)]),
+    "C14": dict(modules=_mods("OHVerif.Props.C14", "OHVerif.Props.C14Optic"), groups=[("optic", 1500)], deps=[("dynfunctor", 300), ("eval", 300)]),
     "C15": dict(modules=_mods("OHVerif.Props.C15", "OHVerif.Lemmas.Kahn"), groups=[("graph", 3000)], deps=[("ic", 400), ("prim", 300)]),
     "C16": dict(modules=_mods("OHVerif.Props.C16"), groups=[("eval", 3000)], deps=[("graph", 600)]),
     "C17": dict(modules=_mods("OHVerif.Props.C17"), groups=[("oh", 2000), ("hg", 1500), ("graph", 800)], deps=[("prim", 300)], release=True),
     "C18": dict(modules=_mods("OHVerif.Props.C18"), groups=[("graph", 3000)], deps=[("ic", 300)]),
-    "C19": dict(modules=_mods("OHVerif.Props.C19"), groups=[("var", 2500)], deps=[("dynfunctor", 300), ("lax.edit", 300)]),
+    "C19": dict(modules=_mods("OHVerif.Props.C19", "OHVerif.Props.C19Build"), groups=[("var", 2500)], deps=[("dynfunctor", 300), ("lax.edit", 300)]),
     "C20": dict(modules=_mods("OHVerif.Props.C20"),
                 groups=_ADV("oh", 800) + _ADV("law", 600) + _ADV("graph", 700) + _ADV("eval", 600) + _ADV("functor", 300) + _ADV("ff", 500) + _ADV("prim", 500) + _ADV("hg", 400) + _ADV("ic", 300),
                 deps=[]),
@@ -81,9 +83,11 @@ ONLY = {
     "C12": r"(functor\.\w+|lax\.functor\.map_arrow)$",
     "C13": r"lax\.functor\.(try_map_arrow|map_arrow_witness|map_arrow)$",
     "C14": r"(lax\.optic\.\w+|optic\.deriv)$",
-    "C15": r"graph\.(converse|operation_adjacency|indegree|dense_relative_indegree|sparse_relative_indegree|kahn|layer|layered_operations)$",
+    # the hook-level ops (converse, adjacency, indegree, kahn) are run and compared, but only the public
+    # API decides the property: an internal helper may change without the layering changing
+    "C15": r"graph\.(layer|layered_operations)$",
     "C16": r"eval\.eval$",
-    "C17": r"(oh\.is_monogamous|oh\.is_acyclic|hg\.is_acyclic|hg\.in_degree|hg\.out_degree|graph\.node_adjacency)$",
+    "C17": r"(oh\.is_monogamous|oh\.is_acyclic|hg\.is_acyclic|hg\.in_degree|hg\.out_degree)$",
     "C18": r"graph\.(arrow_new|is_monomorphism|is_convex_subgraph)$",
     "C19": r"var\.",
     "C20": r"(oh\.(compose|tensor|is_monogamous|is_acyclic)|law\.\w+(:eq)?|graph\.(layer|layered_operations|arrow_new|is_monomorphism|is_convex_subgraph)|eval\.eval|functor\.identity_map_arrow|hg\.is_acyclic|ff\.coequalizer\w*|prim\.(argsort|sort_by|connected_components|sparse_bincount|scatter))$",
